@@ -16,6 +16,10 @@
 // "E or derives from it" and the language disagree; either verdict is accepted there, as long as any failure is an
 // expectation_failed.
 //
+// With -DC19_EXOTIC_PTRPRED (third optional stage): expect()/expect_msg() with pointer, C-string and function-pointer
+// predicates — kept out of the main TU because a header that routes the predicate through an integer type does not
+// compile for pointers.
+//
 // Every cell runs in the five call contexts of c19_common.hh; errno is poisoned before each call; no iostream
 // formatting anywhere (the process runs under a hostile global locale).
 #include <functional>
@@ -184,10 +188,60 @@ static void row(int e) {
   }
 }
 
+// ---- pointer-kind predicates for expect()/expect_msg() (-DC19_EXOTIC_PTRPRED, its own optional stage) -----------------
+template <typename T>
+static Outcome pred_expect(const T& pred_value) {
+  Outcome o;
+  try { o.site_line = __LINE__; expect(pred_value); } CATCH_INTO(o, true)
+  return o;
+}
+template <typename T>
+static Outcome pred_expect_msg(const T& pred_value) {
+  Outcome o;
+  try { o.site_line = __LINE__; expect_msg(pred_value, "pointer predicate"); } CATCH_INTO(o, true)
+  return o;
+}
+static void some_function() {}
+
+template <typename T>
+static void pointer_predicate_cell(const char* tname, const char* label, const T& v, bool truthy) {
+  if (!C->mine(cell_idx++)) return;
+  string kase0 = fmt("expect(%s) / expect_msg(%s, ...) with a predicate of type %s", label, label, tname);
+  C->crumb_s(kase0);
+  for (int rep = 0; rep < REPS; rep++) {
+    Context cx = CTX_SCHED[rep % 8];
+    for (int which = 0; which < 2; which++) {
+      Outcome o = in_context(cx, [&]() { return which ? pred_expect_msg<T>(v) : pred_expect<T>(v); });
+      C->evaluations++;
+      string kase = kase0 + (cx == CX_DIRECT ? string() : string(" [called ") + CTX_NAME[cx] + "]");
+      const char* m = which ? "expect_msg" : "expect";
+      if (o.threw_other) C->violation(fmt("%s:predicate-%s:wrong-exception", m, tname), o.other, kase);
+      else if (truthy && o.threw_ef) C->violation(fmt("%s:predicate-%s:spurious-failure", m, tname), "predicate is non-null but expectation_failed was thrown: " + o.what, kase);
+      else if (!truthy && !o.threw_ef) C->violation(fmt("%s:predicate-%s:missing-failure", m, tname), "predicate is null but nothing was thrown", kase);
+      else if (o.threw_ef && (o.file != __FILE__ || o.line != o.site_line || !has_decimal(o.what, o.site_line)))
+        C->violation(fmt("%s:site", m), fmt("failure carries %s:%" PRIu64 " / what() \"%s\", call site is %s:%" PRIu64, o.file.c_str(), o.line, o.what.c_str(), __FILE__, o.site_line), kase);
+    }
+  }
+  C->cls(fmt("pred:%s:%s", tname, truthy ? "truthy" : "falsy"));
+}
+
 int main(int argc, char** argv) {
   vf::Ctx& c = vf::init(argc, argv);
   C = &c;
   REPS = c.qt<int>(48, 800);
+#ifdef C19_EXOTIC_PTRPRED
+  pointer_predicate_cell<const void*>("pointer", "&object", (const void*)&cell_idx, true);
+  pointer_predicate_cell<const void*>("pointer", "(void*)0x100000000 (low 32 bits zero)", (const void*)0x100000000ULL, true);
+  pointer_predicate_cell<const void*>("pointer", "(void*)nullptr", (const void*)nullptr, false);
+  pointer_predicate_cell<int*>("pointer", "(int*)nullptr", (int*)nullptr, false);
+  pointer_predicate_cell<const char*>("c-string", "\"\" (empty but non-null)", "", true);
+  pointer_predicate_cell<const char*>("c-string", "(const char*)nullptr", (const char*)nullptr, false);
+  pointer_predicate_cell<void (*)()>("function-pointer", "&some_function", &some_function, true);
+  pointer_predicate_cell<void (*)()>("function-pointer", "null function pointer", (void (*)())nullptr, false);
+  c.sample("expect((void*)0x100000000) must pass, expect((const char*)nullptr) must fail with expectation_failed naming the call site");
+  c.count("exotic_cells", c.shard == 0 ? cell_idx : 0);
+  return c.finish();
+#endif
 #ifdef C19_EXOTIC_INT
   if (!table_column_ok<int>(E_INT)) return 2;
   row<int>(E_INT);
